@@ -74,9 +74,14 @@ def setup():
     classes = {'Root': Root, 'A': A, 'B': B, 'I': I, 'Boom': Boom, 'Exception': Exception,
                'HTTPForbidden': HTTPForbidden, 'HTTPNotFound': HTTPNotFound, 'ValueError': ValueError}
     perm_obj = {'view': 'view', 'edit': 'edit', 'NPR': NO_PERMISSION_REQUIRED, 'ZERO': Perm.ZERO, 'EMPTY': ''}
-    static_dir = tempfile.mkdtemp(prefix='C05_static_')
-    with open(os.path.join(static_dir, 'f.txt'), 'w') as f:
-        f.write('STATIC')
+    static_dir = os.path.join(tempfile.gettempdir(), 'C05_static')      # one fixed scratch directory, one 6-byte file
+    os.makedirs(static_dir, exist_ok=True)
+    fn = os.path.join(static_dir, 'f.txt')
+    if not os.path.exists(fn):
+        tmp = '%s.%d' % (fn, os.getpid())
+        with open(tmp, 'w') as f:
+            f.write('STATIC')
+        os.replace(tmp, fn)
 
     class Custom:
         def __init__(self, i):
